@@ -173,10 +173,25 @@ C05Part(d) ==
        /\ Emit(MeanCase(fl, ty, "ci", ki, li, [rle |-> << <<V(1, 0), 1>>, <<V(100, 0), 1>> >>, order |-> "asc"], TRUE, "base") @@ [aux |-> TRUE])
        /\ Emit(MeanCase(fl, ty, "ci", ki, li, [rle |-> << <<V(3, 0), 1>>, <<V(5, 0), 1>>, <<V(9, 0), 1>>, <<V(4, 0), 1>> >>, order |-> "asc"], TRUE, "base") @@ [aux |-> TRUE])
 
+\* ---- C09: long merge histories on data whose sums round (judged by the exact-statistics judge) ----
+FoldStyles == <<"ci", "lfold1", "rfold1", "rfold1_assign", "lfold7", "rfold7", "tree">>
+FoldData(k, n) ==
+    CASE k = 1 -> [rle |-> << <<V(-13421773, -27), n \div 2>>, <<V(-11184811, -25), n \div 4>>, <<V(-3, -3), n - (n \div 2) - (n \div 4)>> >>,
+                   order |-> "interleave"]                                          \* all negative (~ -0.1, -0.33, -0.375)
+      [] k = 2 -> [rle |-> << <<V(13421773, -27), n \div 2>>, <<V(11184811, -22), n \div 4>>, <<V(5, -1), n - (n \div 2) - (n \div 4)>> >>,
+                   order |-> "interleave"]                                          \* all positive, mixed magnitudes
+      [] OTHER -> [rle |-> << <<V(-13421773, -24), n \div 3>>, <<V(11184811, -25), n \div 3>>, <<V(-7, 0), n - 2 * (n \div 3)>> >>,
+                   order |-> "interleave"]                                          \* mixed signs, negative total
+FoldNs == IF Thorough THEN <<1000, 20000, 300000, 1000000>> ELSE <<1000, 20000, 300000>>
+C09FoldPart(d) ==
+  \A k \in 1..3 : \A ni \in DOMAIN FoldNs : \A ty \in {"f64", "f32"} : \A li \in {8, 14} : \A ki \in 1..3 :
+     \A si \in DOMAIN FoldStyles :
+        Emit(MeanCase("arith", ty, FoldStyles[si], ki, li, FoldData(k, FoldNs[ni]), si = 1, IF si = 1 THEN "base" ELSE "merge"))
+
 Next == /\ ~done
         /\ done' = TRUE
         /\ CASE Part = "c01" -> C01Part(done) [] Part = "c06" -> C06Part(done)
              [] Part = "c04" -> (C04Part(done) /\ ScaledUnpaired(done)) [] Part = "c05" -> C05Part(done)
-             [] Part = "designed" -> DesignedPart(done)
+             [] Part = "designed" -> DesignedPart(done) [] Part = "c09fold" -> C09FoldPart(done)
 Spec == Init /\ [][Next]_done
 =============================================================================
